@@ -281,6 +281,22 @@ static int run_session(xmp_context a, xmp_context b, const char *path, int rate,
 	return fails;
 }
 
+/* digest of all sample PCM of a loaded module */
+static uint64_t sample_digest(xmp_context c)
+{
+	struct xmp_module_info mi;
+	uint64_t h = 1469598103934665603ULL;
+	int i;
+
+	xmp_get_module_info(c, &mi);
+	for (i = 0; i < mi.mod->smp; i++) {
+		struct xmp_sample *xs = &mi.mod->xxs[i];
+		if (xs->data != NULL && xs->len > 0)
+			h = fnv1a(h, xs->data, (size_t)xs->len * ((xs->flg & XMP_SAMPLE_16BIT) ? 2 : 1));
+	}
+	return h;
+}
+
 /* One case = one module in two twin contexts, 1..3 player sessions.  Between
  * sessions both players are restarted (xmp_start_player on a playing context,
  * or xmp_end_player + xmp_start_player): xmp_start_player must drop any
@@ -310,6 +326,19 @@ static int run_case(const char *path, uint64_t seed, long maxhex)
 		if (sidx > 0 && vrng_chance(50)) {
 			xmp_end_player(a);
 			xmp_end_player(b);
+		}
+		/* The Protracker invert-loop effect rewrites sample bytes by design (C15's
+		 * stated exception), and the twins rendered different numbers of frames in
+		 * the previous session: when their sample data differ they are no longer
+		 * "the same module", so both are reloaded before the next session. */
+		if (sidx > 0 && sample_digest(a) != sample_digest(b)) {
+			xmp_end_player(a);
+			xmp_end_player(b);
+			xmp_release_module(a);
+			xmp_release_module(b);
+			if (xmp_load_module(a, path) < 0 || xmp_load_module(b, path) < 0)
+				break;
+			printf("reload invloop\n");
 		}
 		/* the two contexts rendered different numbers of frames in the previous
 		 * session: re-pin the random state (C06 fixes it) before each session */
